@@ -165,3 +165,52 @@ def run_scenario(sc):
                 except OSError:
                     pass
         shutil.rmtree(d, ignore_errors=True)
+
+
+# ------------------------------------------------------------------------------------------------ the backup is a faithful copy
+BACKUP_INPUTS = {
+    "lf_utf8": b"entity  e1 is\nend entity e1;\n",
+    "crlf": b"entity  e1 is\r\nend entity e1;\r\n",
+    "cr_only": b"entity  e1 is\rend entity e1;\r",
+    "no_final_newline": b"entity  e1 is\nend entity e1;",
+    "latin1_comment": b"-- gr\xf6\xdfe in \xb5s\nentity  e1 is\nend entity e1;\n",
+    "utf8_bom_like_comment": "-- größe in µs, 中\nentity  e1 is\nend entity e1;\n".encode("utf-8"),
+    "trailing_blanks_and_tabs": b"entity  e1 is \t \nend entity e1;\n\n\n",
+}
+
+
+def backup_case(name):
+    """real CLI --fix --backup: <file>.bak holds exactly the bytes (and the mode) the file had; with a linesep configuration too"""
+    import subprocess
+    import tempfile
+
+    out = []
+    for cfg in (None, {"linesep": "\r\n"}):
+        d = tempfile.mkdtemp(prefix="c16b_")
+        try:
+            p = os.path.join(d, "e1.vhd")
+            with open(p, "wb") as fh:
+                fh.write(BACKUP_INPUTS[name])
+            os.chmod(p, 0o640)
+            cmd = ["/venv/bin/vsg", "-f", "e1.vhd", "--fix", "--backup", "-p", "1"]
+            if cfg:
+                import json
+
+                json.dump(cfg, open(os.path.join(d, "cfg.json"), "w"))
+                cmd += ["-c", "cfg.json"]
+            r = subprocess.run(cmd, cwd=d, capture_output=True, text=True, timeout=180)
+            if "Traceback" in r.stdout + r.stderr:
+                out.append("%s%s: traceback: %s" % (name, " +linesep" if cfg else "", (r.stdout + r.stderr).strip().split("\n")[-1][:120]))
+                continue
+            bak = p + ".bak"
+            if not os.path.exists(bak):
+                out.append("%s%s: no backup file was written" % (name, " +linesep" if cfg else ""))
+                continue
+            b = open(bak, "rb").read()
+            if b != BACKUP_INPUTS[name]:
+                out.append("%s%s: the backup is not a faithful copy: %r instead of %r" % (name, " +linesep" if cfg else "", b[:50], BACKUP_INPUTS[name][:50]))
+            if stat.S_IMODE(os.stat(bak).st_mode) != 0o640:
+                out.append("%s%s: the backup has mode %o, the file had 640" % (name, " +linesep" if cfg else "", stat.S_IMODE(os.stat(bak).st_mode)))
+        finally:
+            shutil.rmtree(d, ignore_errors=True)
+    return (name, out)
